@@ -32,7 +32,14 @@ def find_pool(facts):
             continue
         fs = a["variants"][0]["fields"]
         cv = [x["name"] for x in fs if x["ty"] == "std::sync::Condvar"]
-        ctr = [x["name"] for x in fs if x["ty"] in ("std::sync::atomic::AtomicUsize", "std::sync::atomic::Atomic<usize>")]
+        # the atomic counters of the shared state, also when they are grouped in a private struct or wrapped in a private newtype: each is
+        # named by the last proper field name on its path (`workers.waiting.0` -> waiting)
+        apaths = shared.find_slot_paths(facts, aid, r"^std::sync::atomic::(AtomicUsize|Atomic<usize>)$")
+        ctr = []
+        for pth in apaths:
+            names = [seg for seg in pth if not seg.isdigit()]
+            if names:
+                ctr.append(names[-1])
         todo = []
         for x in fs:
             m = re.match(r"^std::sync::Mutex<(.*)>$", x["ty"])
@@ -53,6 +60,14 @@ def find_pool(facts):
         raise CheckerError("pool rules: expected exactly one shared pool state (a Mutex around the queue of boxed tasks + a Condvar), found %s" % [x[0] for x in sh])
     sh = sh[0]
     tps = [aid for aid, a in sorted(facts.adts.items()) if a["kind"] == "Struct" and aid != sh[0] and any(sh[0] in x["ty"] for x in a["variants"][0]["fields"])]
+    if len(tps) > 1:
+        # the pool is the holder that the rest of the crate uses (a private worker object may hold the shared state as well)
+        used = []
+        for tp in tps:
+            ms = [f for k, f in facts.local_fns.items() if f.rec.get("impl_self_adt") == tp]
+            if any(g.file != facts.adt(tp)["file"] for m_ in ms for g, bb, t in facts.callers_of(m_.id)):
+                used.append(tp)
+        tps = used
     if len(tps) != 1:
         raise CheckerError("pool rules: expected exactly one pool type holding %s, found %s" % (sh[0], tps))
     return sh, tps[0]
@@ -123,6 +138,19 @@ class PoolModel:
             if len(subs) == 1 and op_const(subs[0]["args"][1]) == 1 and not self.counter_of(g, g.origin(subs[0]["args"][0])):
                 out[adt] = g
         self._guards = out
+        return out
+
+    def wrapper_adts(self):
+        """private newtypes / structs of the crate whose only content is one atomic counter (`struct Counter(AtomicUsize)`)"""
+        if hasattr(self, "_wrappers"):
+            return self._wrappers
+        out = set()
+        for aid, a in self.facts.adts.items():
+            if a["kind"] == "Struct" and a.get("file") == self.file:
+                fs = a["variants"][0]["fields"]
+                if len(fs) == 1 and fs[0]["ty"] in ("std::sync::atomic::AtomicUsize", "std::sync::atomic::Atomic<usize>") and aid != self.sh:
+                    out.add(aid)
+        self._wrappers = out
         return out
 
     def counter_events(self, f):
@@ -223,10 +251,21 @@ def rule_counter_discipline(ctx, rule):
     for g, bb, t in facts.all_calls(lambda t: bool(re.search(ATOMIC_RMW, call_name(t)))):
         c = P.counter_of(g, g.origin(t["args"][0]))
         in_guard = g.rec.get("impl_self_adt") in P.guard_adts() or any(g.id == d.id for d in P.guard_adts().values())
-        if c is None and not in_guard:
+        in_wrapper = g.rec.get("impl_self_adt") in P.wrapper_adts()
+        if c is None and not in_guard and not in_wrapper:
             continue
         n += 1
         op = re.search(ATOMIC_RMW, call_name(t)).group(1)
+        if in_wrapper and not in_guard and c is None:
+            # a method of the private counter type: stepping by one is what workers do; overwriting is reserved to the pool's destructor
+            if op in ("fetch_add", "fetch_sub"):
+                ok = g.file == P.file and op_const(t["args"][1]) == 1
+                ctx.ob(rule, "counter-write|%s" % g.id, "the worker counters are stepped by one, and only by the pool's own code", ok, g.loc(bb))
+            else:
+                callers = facts.callers_of(g.id)
+                ok = P.drop is not None and bool(callers) and all(h.id == P.drop.id for h, b2, t2 in callers)
+                ctx.ob(rule, "counter-write|%s" % g.id, "the worker counters are overwritten only by the pool's destructor", ok, g.loc(bb))
+            continue
         if in_guard:
             ok = op in ("fetch_add", "fetch_sub") and op_const(t["args"][1]) == 1
             ctx.ob(rule, "counter-write|%s" % g.id, "the registration guard increments by one on creation and decrements by one on drop", ok, g.loc(bb))
